@@ -25,6 +25,10 @@ type GenCfg struct {
 	OnlyUnary      bool
 	OnlyStream     bool
 	Pad            int
+	// ServerVersion: the protocol version the server declares ("" = none).
+	// Every request then carries a matching vgi_rpc.protocol_version, except
+	// ops with Bad == "protover", which carry a mismatching one.
+	ServerVersion string
 }
 
 var unaryBad = []string{"nomethod", "badversion", "noversion", "zerorows", "tworows", "unknown", "params-renamed", "params-extra", "params-type"}
@@ -86,6 +90,9 @@ func GenOps(tp *simkern.Tape, c GenCfg) []*Op {
 			op.Method = hx.UnaryMethods[tp.Draw(len(hx.UnaryMethods))]
 			op.Script = &hx.Script{Nonce: nonce, Outcome: "ok"}
 			op.Bad = unaryBad[tp.Draw(len(unaryBad))]
+			if c.ServerVersion != "" && tp.Bool(1, 4) {
+				op.Bad = "protover"
+			}
 			if c.BadStream && tp.Bool(1, 3) {
 				m := hx.StreamMethods[tp.Draw(len(hx.StreamMethods))]
 				op.Kind = "stream"
@@ -97,6 +104,9 @@ func GenOps(tp *simkern.Tape, c GenCfg) []*Op {
 				}
 				op.Script.Mode = op.StreamKind
 				op.Bad = streamBad[tp.Draw(len(streamBad))]
+				if c.ServerVersion != "" && tp.Bool(1, 3) {
+					op.Bad = "protover"
+				}
 				op.Inputs = 1 + tp.Draw(3)
 			}
 		case 1: // stream
@@ -132,6 +142,13 @@ func GenOps(tp *simkern.Tape, c GenCfg) []*Op {
 					op.InputMeta = append(op.InputMeta, m)
 				}
 			}
+		}
+		if c.ServerVersion != "" {
+			v := c.ServerVersion
+			if op.Bad == "protover" {
+				v = []string{"0.0.1", "99.0.0", "", "1.2.3-rc1", c.ServerVersion + ".0"}[tp.Draw(5)]
+			}
+			op.Extra = op.Extra.Add(hx.KProtoVer, v)
 		}
 		ops = append(ops, op)
 	}
